@@ -2245,15 +2245,34 @@ struct XmlReader<'i, R: XmlRead<'i>, E: EntityResolver = PredefinedEntityResolve
 }
 
 impl<'i, R: XmlRead<'i>, E: EntityResolver> XmlReader<'i, R, E> {
-    fn new(mut reader: R, entity_resolver: E) -> Self {
+    fn new(reader: R, entity_resolver: E) -> Self {
+        let mut this = Self {
+            reader,
+            lookahead: Ok(PayloadEvent::Eof),
+            entity_resolver,
+        };
         // Lookahead by one event immediately, so we do not need to check in the
         // loop if we need lookahead or not
-        let lookahead = reader.next();
+        this.lookahead = this.fetch();
+        this
+    }
 
-        Self {
-            reader,
-            lookahead,
-            entity_resolver,
+    /// Reads the next event from the underlying reader. `DocType` events are
+    /// processed here and never stored in the lookahead: they produce no
+    /// [`DeEvent`], so if they would be seen by [`Self::drain_text`], a DOCTYPE
+    /// between two text events would split one logical text into two
+    /// consequent [`DeEvent::Text`] events, which deserializer does not expect.
+    fn fetch(&mut self) -> Result<PayloadEvent<'i>, DeError> {
+        loop {
+            return match self.reader.next() {
+                Ok(PayloadEvent::DocType(e)) => {
+                    self.entity_resolver
+                        .capture(e)
+                        .map_err(|err| DeError::Custom(format!("cannot parse DTD: {}", err)))?;
+                    continue;
+                }
+                event => event,
+            };
         }
     }
 
@@ -2265,7 +2284,8 @@ impl<'i, R: XmlRead<'i>, E: EntityResolver> XmlReader<'i, R, E> {
     /// Read next event and put it in lookahead, return the current lookahead
     #[inline(always)]
     fn next_impl(&mut self) -> Result<PayloadEvent<'i>, DeError> {
-        replace(&mut self.lookahead, self.reader.next())
+        let next = self.fetch();
+        replace(&mut self.lookahead, next)
     }
 
     /// Returns `true` when next event is not a text event in any form.
